@@ -524,7 +524,7 @@ def run_shard(spec, ctx):
         if ctx.out_of_time():
             return
         ctx.case({"part": "json", "value": ospec})
-        if json_body(ctx, ospec) and len(ctx.samples) < ctx.MAX_SAMPLES and len(repr(ospec)) < 2500:
+        if json_body(ctx, ospec) and ctx.evaluations > 200 and len(ctx.samples) < ctx.MAX_SAMPLES and len(repr(ospec)) < 2500:
             ctx.sample({"part": "json", "value": ospec})
 
     test()
